@@ -382,7 +382,8 @@ func c14CoveredCalls(text string) []c14Remaining {
 			}
 		case c.Name == "randomblob":
 			// the property exempts only RANDOM() inside ORDER BY
-			if len(c.Args) == 1 && c14ArgIsLiteral(c.Args[0]) {
+			// and a literal beyond SQLite's maximum blob size makes the statement fail everywhere
+			if len(c.Args) == 1 && c14ArgIsLiteral(c.Args[0]) && !c14TooBig(c.Args[0][0]) {
 				out = append(out, c14Remaining{c, "randomblob(literal)"})
 			}
 		case c14TimeFns[c.Name]:
